@@ -51,6 +51,8 @@ type recorder struct {
 	opps     int // tamper opportunities seen so far
 	fired    bool
 	hibAt    map[int][]string // plan step -> temp-file names ("" = none) of its Hibernate calls, in call order (wrapper only)
+	spy      bool             // look into every temp file right after the Hibernate call that wrote it (probing runs of kind truncall)
+	written  []victimFile
 }
 
 func (r *recorder) nameID(path string) int {
@@ -160,6 +162,7 @@ func errClassBoot(err error) string {
 
 func (w *wrap) Hibernate() error {
 	before := w.inner.VerifC09ArenaSize()
+	tracked := w.inner.VerifC09TrackedFiles()
 	err := w.inner.Hibernate()
 	after := w.inner.VerifC09ArenaSize()
 	fn := w.inner.VerifC09HibernatedFileName()
@@ -178,7 +181,15 @@ func (w *wrap) Hibernate() error {
 	} else {
 		ev = append(ev, T("ok"))
 	}
+	ev = append(ev, T("files", I(tracked)))
 	w.rec.events = append(w.rec.events, T("hib", ev...))
+	if w.rec.spy && fn != "" && err == nil {
+		if dg, data := digestOfFile(fn); dg != "" {
+			vf := victimFile{digest: dg, size: len(data)}
+			vf.arena, vf.gaps, vf.last7, _ = fileLayout(data)
+			w.rec.written = append(w.rec.written, vf)
+		}
+	}
 	if w.rec.hibAt != nil {
 		w.rec.hibAt[w.rec.step] = append(w.rec.hibAt[w.rec.step], fn)
 	}
@@ -188,6 +199,7 @@ func (w *wrap) Hibernate() error {
 func (w *wrap) Boot() error {
 	fn := w.inner.VerifC09HibernatedFileName()
 	before := w.inner.VerifC09ArenaSize()
+	tracked := w.inner.VerifC09TrackedFiles()
 	err := w.inner.Boot()
 	after := w.inner.VerifC09ArenaSize()
 	ev := []Sx{I(w.rec.step), I(w.id), I(before), I(after)}
@@ -201,6 +213,7 @@ func (w *wrap) Boot() error {
 	} else {
 		ev = append(ev, T("ok"))
 	}
+	ev = append(ev, T("files", I(tracked)))
 	w.rec.events = append(w.rec.events, T("boot", ev...))
 	return err
 }
@@ -210,7 +223,7 @@ func (w *wrap) Boot() error {
 // hibernation directory holds temp files (so some branch sleeps on disk) it removes / truncates them
 
 type tamperSpec struct {
-	mode string // remove | trunc0 | trunc1 | quarter | half | minus9 | minus4 | minus2 | minus1 | same
+	mode string // remove | trunc0 | trunc1 | quarter | half | minus9 | minus4 | minus2 | minus1 | same | to (the first toLen bytes)
 	skip int    // number of opportunities to let pass
 	// victim: 0 = every temp file; 1 / 2 / 3 = ONE file: the first / middle / last one - in directory order (at =
 	// "consume") or in the order of the branches of the boot action (at = "boot")
@@ -220,7 +233,11 @@ type tamperSpec struct {
 	// at: "consume" = in the Consume of the tamper item (while some commit is replayed); "boot" = in OnProgress right
 	// before a boot action that covers at least two branches (needs the recording wrapper to know which file belongs
 	// to which branch of the action)
-	at string
+	// "step" = in OnProgress before the first plan step at which a temp file with the given digest exists (kind truncall: the
+	// victim is identified by its bytes, which do not depend on the branch numbering the planner happens to choose)
+	at     string
+	toLen  int
+	digest string
 }
 
 func pickVictim(n, victim int) int {
@@ -269,6 +286,15 @@ func (r *recorder) damage(step int, files []string) {
 				nl = size / 4
 			case "same":
 				nl = size
+			case "to":
+				nl = r.tamper.toLen
+				if nl > size {
+					nl = size
+				}
+				if data, e := ioutil.ReadFile(f); e == nil {
+					ar, gp, l7, _ := fileLayout(data)
+					r.events = append(r.events, T("vfile", I(step), I(id), I(size), I(ar), I(gp), I(l7)))
+				}
 			}
 			if nl < 0 {
 				nl = 0
@@ -307,7 +333,7 @@ func (t *tamperItem) Consume(deps map[string]interface{}) (map[string]interface{
 	if r.tamper == nil || r.fired || r.dir == "" {
 		return map[string]interface{}{}, nil
 	}
-	if r.tamper.at == "boot" {
+	if r.tamper.at == "boot" || r.tamper.at == "step" {
 		return map[string]interface{}{}, nil
 	}
 	files, _ := filepath.Glob(filepath.Join(r.dir, "*-hercules.bin"))
@@ -340,6 +366,12 @@ type runCfg struct {
 	// options away from the defaults of this harness (kind long): Burndown.TrackFiles off, Burndown.People off, no
 	// Burndown.HibernationDirectory (ioutil.TempFile then uses os.TempDir(), which TMPDIR points to a fresh directory)
 	noFiles, noPeople, defDir bool
+	spy                       bool // not part of the input: the wrapper looks into the temp files (probing run)
+	// kind rerun: before this run the SAME pipeline and the SAME deployed item instance went through Initialize + Run under
+	// the prior configuration (a directory of its own; cleanDir: its temp files are removed before the second run)
+	prior    *runCfg
+	cleanDir bool
+	hist     *synth.Hist // of a prior run: the history it analyses (nil: the history of the case)
 }
 
 func (cfg runCfg) optsSx() []Sx {
@@ -382,13 +414,15 @@ func canonical(res leaves.BurndownResult, people []string) string {
 }
 
 type runObs struct {
-	out      outcome
-	rec      *recorder
-	final    []fileInfo
-	denies   bool // the directory really refuses file creation (rodir)
-	plan     []verifapi.VerifAction
-	commits  []*object.Commit
-	planSame bool
+	prior     outcome // kind rerun: the outcome of the prior run on the same objects
+	priorLeft int     // and the number of temp files it left behind
+	out       outcome
+	rec       *recorder
+	final     []fileInfo
+	denies    bool // the directory really refuses file creation (rodir)
+	plan      []verifapi.VerifAction
+	commits   []*object.Commit
+	planSame  bool
 }
 
 var baseDir string
@@ -400,6 +434,9 @@ var scaleOf = map[*synth.Hist]scaleP{}
 func histSx(h *synth.Hist) Sx {
 	if sp, ok := scaleOf[h]; ok {
 		return sp.sx()
+	}
+	if vh, ok := viewOf[h]; ok {
+		return vh.sx()
 	}
 	return h.Sx()
 }
@@ -432,6 +469,26 @@ func basePlanOf(dump []dumped, commits []*object.Commit) []verifapi.VerifAction 
 	return basePlan
 }
 
+// buildHist returns the repository of a history (built once per history: the pipeline only reads it).
+func buildHist(h *synth.Hist) (repo *git.Repository, commits []*object.Commit) {
+	if sp, isScale := scaleOf[h]; isScale {
+		return scaleBuild(sp, h)
+	}
+	if b, ok := smallRepos[h]; ok {
+		return b.repo, b.commits
+	}
+	if vh, ok := viewOf[h]; ok {
+		repo, commits = synth.BuildRepo(vh.specs())
+	} else {
+		repo, commits = h.Build()
+	}
+	if len(smallRepos) > 3 {
+		smallRepos = map[*synth.Hist]builtRepo{}
+	}
+	smallRepos[h] = builtRepo{repo, commits}
+	return
+}
+
 func doRun(h *synth.Hist, G, S int, cfg runCfg) (ro runObs) {
 	if os.Getenv("C09_TIMING") != "" {
 		t0 := time.Now()
@@ -443,83 +500,18 @@ func doRun(h *synth.Hist, G, S int, cfg runCfg) (ro runObs) {
 	}
 	journal(h, G, S, cfg)
 	defer journalIdle()
-	var repo *git.Repository
-	var commits []*object.Commit
-	sp, isScale := scaleOf[h]
-	if isScale {
-		repo, commits = scaleBuild(sp, h)
-	} else {
-		repo, commits = h.Build()
-	}
+	_, isScale := scaleOf[h]
+	repo, commits := buildHist(h)
 	ro.commits = commits
-	rec := &recorder{step: -1, names: map[string]int{}}
-	if cfg.wrap {
-		rec.hibAt = map[int][]string{}
-	}
+	rec := &recorder{}
 	ro.rec = rec
-	facts := map[string]interface{}{
-		hercules.ConfigPipelineCommits:            commits,
-		leaves.ConfigBurndownGranularity:          G,
-		leaves.ConfigBurndownSampling:             S,
-		leaves.ConfigBurndownTrackFiles:           !cfg.noFiles,
-		leaves.ConfigBurndownTrackPeople:          !cfg.noPeople,
-		"Pipeline.HibernationDistance":            cfg.dist,
-		leaves.ConfigBurndownHibernationThreshold: cfg.thr,
-	}
-	if isScale {
-		// the diffs of the large histories must not depend on the load of the machine
-		facts["FileDiff.Timeout"] = 600000
-	}
-	runCounter++
-	var cleanup string
-	if cfg.disk {
-		dir := filepath.Join(baseDir, fmt.Sprintf("r%d", runCounter))
-		cleanup = dir
-		switch cfg.fault {
-		case "nodir":
-			dir = filepath.Join(dir, "missing") // never created
-		case "filedir":
-			os.MkdirAll(dir, 0755)
-			ioutil.WriteFile(filepath.Join(dir, "plain"), []byte("x"), 0644)
-			dir = filepath.Join(dir, "plain", "sub")
-		case "rodir":
-			os.MkdirAll(dir, 0755)
-			os.Chmod(dir, 0555)
-			if f, err := os.Create(filepath.Join(dir, "probe")); err == nil {
-				f.Close()
-				os.Remove(filepath.Join(dir, "probe"))
-			} else {
-				ro.denies = true
-			}
-		default:
-			os.MkdirAll(dir, 0755)
-		}
-		rec.dir = dir
-		facts[leaves.ConfigBurndownHibernationToDisk] = true
-		if cfg.defDir {
-			oldTmp, had := os.LookupEnv("TMPDIR")
-			os.Setenv("TMPDIR", dir)
-			defer func() {
-				if had {
-					os.Setenv("TMPDIR", oldTmp)
-				} else {
-					os.Unsetenv("TMPDIR")
-				}
-			}()
-		} else {
-			facts[leaves.ConfigBurndownHibernationDirectory] = dir
-		}
-	}
-	rec.tamper = cfg.tamper
+	var cleanups []string
 	defer func() {
-		if cleanup != "" {
-			os.Chmod(cleanup, 0755)
-			os.RemoveAll(cleanup)
+		for _, d := range cleanups {
+			os.Chmod(d, 0755)
+			os.RemoveAll(d)
 		}
 	}()
-	// Run prints the plan it executes through the plan printer (Pipeline.DumpPlan)
-	facts[vc09.ConfigPipelineDumpPlan] = true
-	facts[hercules.ConfigLogger] = quietLogger{}
 	var dump []dumped
 	old := vc09.SetPlanPrinter(func(args ...interface{}) {
 		d := dumped{tag: args[0].(string)}
@@ -535,26 +527,44 @@ func doRun(h *synth.Hist, G, S int, cfg runCfg) (ro runObs) {
 		dump = append(dump, d)
 	})
 	defer vc09.SetPlanPrinter(old)
-	p := hercules.NewPipeline(repo)
-	var leaf hercules.LeafPipelineItem
+	// ONE BurndownAnalysis instance for all phases of the run (kind rerun: a prior run on the same item).  Every phase
+	// gets a pipeline of its own: a second Run of one Pipeline fails in TreeDiff whatever the hibernation settings
+	// (TreeDiff.Initialize does not reset previousCommit), which is not a matter of this property.
+	var item hercules.LeafPipelineItem
 	if cfg.wrap {
-		leaf = p.DeployItem(&wrap{inner: &leaves.BurndownAnalysis{}, rec: rec}).(hercules.LeafPipelineItem)
+		item = &wrap{inner: &leaves.BurndownAnalysis{}, rec: rec}
 	} else {
-		leaf = p.DeployItem(&leaves.BurndownAnalysis{}).(hercules.LeafPipelineItem)
+		item = &leaves.BurndownAnalysis{}
 	}
-	if cfg.tamper != nil {
-		p.DeployItem(&tamperItem{rec: rec})
-	}
+	var p *hercules.Pipeline
+	var leaf hercules.LeafPipelineItem
 	var livePlan []verifapi.VerifAction
-	p.OnProgress = func(step, total int, text string) {
+	cur := cfg
+	curCommits := commits
+	onProgress := func(step, total int, text string) {
+		cfg := cur
 		if step <= total-2 {
 			rec.step = step - 1
 			rec.texts = append(rec.texts, text)
 			rec.listings = append(rec.listings, rec.list())
+			if cfg.tamper != nil && cfg.tamper.at == "step" && !rec.fired && rec.dir != "" {
+				files, _ := filepath.Glob(filepath.Join(rec.dir, "*-hercules.bin"))
+				sort.Strings(files)
+				for _, f := range files {
+					if dg, _ := digestOfFile(f); dg == cfg.tamper.digest {
+						rec.opps++
+						if rec.opps > cfg.tamper.skip {
+							rec.fired = true
+							rec.damage(step-1, []string{f})
+						}
+						break
+					}
+				}
+			}
 			if cfg.tamper != nil && cfg.tamper.at == "boot" && !rec.fired && text == "boot" && rec.dir != "" {
 				// Run printed its plan before the first step: the action that comes next is known
 				if livePlan == nil {
-					livePlan = basePlanOf(dump, commits)
+					livePlan = basePlanOf(dump, curCommits)
 					if cfg.dist > 0 {
 						livePlan = verifapi.InsertHibernateBoot(livePlan, cfg.dist)
 					}
@@ -596,24 +606,120 @@ func doRun(h *synth.Hist, G, S int, cfg runCfg) (ro runObs) {
 			}
 		}
 	}
-	msg, panicked := Catch(func() {
-		if e := p.Initialize(facts); e != nil {
-			ro.out = outcome{"err", "initialize", e.Error()}
-			return
+	// one phase = Initialize + Run of the pipeline under one configuration, observed by a recorder of its own
+	phase := func(cfg runCfg, repo *git.Repository, commits []*object.Commit) (out outcome, denies bool) {
+		cur = cfg
+		curCommits = commits
+		*rec = recorder{step: -1, names: map[string]int{}, spy: cfg.spy}
+		if cfg.wrap {
+			rec.hibAt = map[int][]string{}
 		}
-		out, e := p.Run(commits)
-		if e != nil {
-			ro.out = outcome{"err", "run", e.Error()}
-			return
+		dump, livePlan = nil, nil
+		p = hercules.NewPipeline(repo)
+		leaf = p.DeployItem(item).(hercules.LeafPipelineItem)
+		if cfg.tamper != nil {
+			p.DeployItem(&tamperItem{rec: rec})
 		}
-		res := out[leaf].(leaves.BurndownResult)
-		people, _ := facts[hercules.FactIdentityDetectorReversedPeopleDict].([]string)
-		txt := canonical(res, people)
-		sum := sha1.Sum([]byte(txt))
-		ro.out = outcome{"ok", hex.EncodeToString(sum[:8]), txt}
-	})
-	if panicked {
-		ro.out = outcome{"panic", panicClass(msg), msg}
+		p.OnProgress = onProgress
+		facts := map[string]interface{}{
+			hercules.ConfigPipelineCommits:            commits,
+			leaves.ConfigBurndownGranularity:          G,
+			leaves.ConfigBurndownSampling:             S,
+			leaves.ConfigBurndownTrackFiles:           !cfg.noFiles,
+			leaves.ConfigBurndownTrackPeople:          !cfg.noPeople,
+			"Pipeline.HibernationDistance":            cfg.dist,
+			leaves.ConfigBurndownHibernationThreshold: cfg.thr,
+			leaves.ConfigBurndownHibernationToDisk:    false,
+		}
+		if isScale {
+			// the diffs of the large histories must not depend on the load of the machine
+			facts["FileDiff.Timeout"] = 600000
+		}
+		runCounter++
+		if cfg.disk {
+			dir := filepath.Join(baseDir, fmt.Sprintf("r%d", runCounter))
+			cleanups = append(cleanups, dir)
+			switch cfg.fault {
+			case "nodir":
+				dir = filepath.Join(dir, "missing") // never created
+			case "filedir":
+				os.MkdirAll(dir, 0755)
+				ioutil.WriteFile(filepath.Join(dir, "plain"), []byte("x"), 0644)
+				dir = filepath.Join(dir, "plain", "sub")
+			case "rodir":
+				os.MkdirAll(dir, 0755)
+				os.Chmod(dir, 0555)
+				if f, err := os.Create(filepath.Join(dir, "probe")); err == nil {
+					f.Close()
+					os.Remove(filepath.Join(dir, "probe"))
+				} else {
+					denies = true
+				}
+			default:
+				os.MkdirAll(dir, 0755)
+			}
+			rec.dir = dir
+			facts[leaves.ConfigBurndownHibernationToDisk] = true
+			if cfg.defDir {
+				oldTmp, had := os.LookupEnv("TMPDIR")
+				os.Setenv("TMPDIR", dir)
+				defer func() {
+					if had {
+						os.Setenv("TMPDIR", oldTmp)
+					} else {
+						os.Unsetenv("TMPDIR")
+					}
+				}()
+				facts[leaves.ConfigBurndownHibernationDirectory] = ""
+			} else {
+				facts[leaves.ConfigBurndownHibernationDirectory] = dir
+			}
+		}
+		rec.tamper = cfg.tamper
+		// Run prints the plan it executes through the plan printer (Pipeline.DumpPlan)
+		facts[vc09.ConfigPipelineDumpPlan] = true
+		facts[hercules.ConfigLogger] = quietLogger{}
+		msg, panicked := Catch(func() {
+			if e := p.Initialize(facts); e != nil {
+				out = outcome{"err", "initialize", e.Error()}
+				return
+			}
+			res, e := p.Run(commits)
+			if e != nil {
+				out = outcome{"err", "run", e.Error()}
+				return
+			}
+			r := res[leaf].(leaves.BurndownResult)
+			people, _ := facts[hercules.FactIdentityDetectorReversedPeopleDict].([]string)
+			txt := canonical(r, people)
+			sum := sha1.Sum([]byte(txt))
+			out = outcome{"ok", hex.EncodeToString(sum[:8]), txt}
+		})
+		if panicked {
+			out = outcome{"panic", panicClass(msg), msg}
+		}
+		return
+	}
+	if cfg.prior != nil {
+		pc := *cfg.prior
+		pc.wrap, pc.noFiles, pc.noPeople = cfg.wrap, cfg.noFiles, cfg.noPeople
+		prepo, pcommits := repo, commits
+		if pc.hist != nil {
+			prepo, pcommits = buildHist(pc.hist)
+		}
+		ro.prior, _ = phase(pc, prepo, pcommits)
+		ro.priorLeft = len(rec.list())
+		if cfg.prior.cleanDir && rec.dir != "" {
+			// the user tidies up after the failed run
+			files, _ := filepath.Glob(filepath.Join(rec.dir, "*-hercules.bin"))
+			for _, f := range files {
+				os.Remove(f)
+			}
+		}
+	}
+	ro.out, ro.denies = phase(cfg, repo, commits)
+	if os.Getenv("C09_DEBUG") != "" && ro.out.kind != "ok" {
+		fmt.Fprintf(os.Stderr, "c09 debug: %s %s: %.300s\n", ro.out.kind, ro.out.digest, ro.out.text)
 	}
 	ro.final = rec.list()
 	// the executed plan: the dump gives every action except the 2nd.. items of hibernate / boot actions;
@@ -636,6 +742,17 @@ func doRun(h *synth.Hist, G, S int, cfg runCfg) (ro runObs) {
 		}
 	}
 	return
+}
+
+// basePlanOf2 drops the Hibernate / Boot actions of an executed plan.
+func basePlanOf2(plan []verifapi.VerifAction) []verifapi.VerifAction {
+	var res []verifapi.VerifAction
+	for _, a := range plan {
+		if a.Action != verifapi.ActionHibernate && a.Action != verifapi.ActionBoot {
+			res = append(res, a)
+		}
+	}
+	return res
 }
 
 type dumped struct {
@@ -743,13 +860,21 @@ func faultSx(cfg runCfg) Sx {
 		if at == "" {
 			at = "consume"
 		}
-		return T("fault", A("tamper"), A(cfg.tamper.mode), I(cfg.tamper.skip), T("victim", I(cfg.tamper.victim)),
-			T("minfiles", I(cfg.tamper.minFiles)), T("at", A(at)))
+		f := []Sx{A("tamper"), A(cfg.tamper.mode), I(cfg.tamper.skip), T("victim", I(cfg.tamper.victim)),
+			T("minfiles", I(cfg.tamper.minFiles)), T("at", A(at))}
+		if cfg.tamper.mode == "to" {
+			f = append(f, T("len", I(cfg.tamper.toLen)))
+		}
+		if cfg.tamper.digest != "" {
+			f = append(f, T("digest", A(cfg.tamper.digest)))
+		}
+		return T("fault", f...)
 	}
 	return T("fault", A(cfg.fault))
 }
 
 var baseCache = map[string]runObs{}
+var smallRepos = map[*synth.Hist]builtRepo{}
 
 func emitCase(c *Config, in caseIn) { emitCaseWith(c, in, nil) }
 
@@ -771,6 +896,24 @@ func emitCaseWith(c *Config, in caseIn, pre *runObs) {
 		ro = *pre
 	} else {
 		ro = doRun(in.h, in.G, in.S, in.cfg)
+		// a victim chosen by its bytes: under another branch order of the planner the file may never be written
+		for try := 0; try < 6 && in.cfg.tamper != nil && in.cfg.tamper.digest != "" && !ro.rec.fired; try++ {
+			ro = doRun(in.h, in.G, in.S, in.cfg)
+		}
+	}
+	// The theorem compares a plan with ITS OWN erasure, and prepareRunPlan is not deterministic across calls: when two
+	// successful runs differ and followed different base plans, look for a baseline run on the base plan of this run.
+	baseRetries := 0
+	if _, big := scaleOf[in.h]; !big && ro.out.kind == "ok" && base.out.kind == "ok" && ro.out.digest != base.out.digest {
+		want := planSx(basePlanOf2(ro.plan), ro.commits).String()
+		tries := 16
+		if _, isView := viewOf[in.h]; isView {
+			tries = 60
+		}
+		for baseRetries < tries && planSx(base.plan, base.commits).String() != want {
+			baseRetries++
+			base = doRun(in.h, in.G, in.S, runCfg{wrap: false, noFiles: in.cfg.noFiles, noPeople: in.cfg.noPeople})
+		}
 	}
 	rec := ro.rec
 	listings := make([]Sx, len(rec.listings))
@@ -784,18 +927,22 @@ func emitCaseWith(c *Config, in caseIn, pre *runObs) {
 		}
 	}
 	fields := inputFields(in.kind, nt, in.h, in.G, in.S, in.cfg)
-	c.Emit(append(fields,
-		T("obs",
-			T("base", base.out.sx()),
-			T("res", ro.out.sx()),
-			T("denies", B(ro.denies)),
-			T("plansame", B(ro.planSame)),
-			T("plan0", planSx(base.plan, base.commits)),
-			T("plan", planSx(ro.plan, ro.commits)),
-			T("events", rec.events...),
-			T("listings", listings...),
-			T("final", rec.listSx(ro.final)),
-		))...)
+	obs := []Sx{
+		T("base", base.out.sx()),
+		T("res", ro.out.sx()),
+		T("denies", B(ro.denies)),
+		T("plansame", B(ro.planSame)),
+		T("baseretry", I(baseRetries))}
+	if in.cfg.prior != nil {
+		obs = append(obs, T("priorres", ro.prior.sx(), I(ro.priorLeft)))
+	}
+	obs = append(obs,
+		T("plan0", planSx(base.plan, base.commits)),
+		T("plan", planSx(ro.plan, ro.commits)),
+		T("events", rec.events...),
+		T("listings", listings...),
+		T("final", rec.listSx(ro.final)))
+	c.Emit(append(fields, T("obs", obs...))...)
 }
 
 func parseCase(s Sx) caseIn {
@@ -811,6 +958,8 @@ func parseCase(s Sx) caseIn {
 	if sp, ok := scaleFromSx(get("hist")); ok {
 		in.h = sp.hist()
 		scaleOf[in.h] = sp
+	} else if vh, ok := viewFromSx(get("hist")); ok {
+		in.h = mkView(vh)
 	} else {
 		in.h = synth.HistFromSx(get("hist"))
 	}
@@ -827,22 +976,50 @@ func parseCase(s Sx) caseIn {
 		}
 		in.cfg.noFiles, in.cfg.noPeople, in.cfg.defDir = b("nofiles"), b("nopeople"), b("defdir")
 	}
-	f := get("fault").Args()
-	in.cfg.fault = f[0].Atom
-	if in.cfg.fault == "tamper" {
-		in.cfg.tamper = &tamperSpec{mode: f[1].Atom, skip: f[2].Int()}
+	parseFault(get("fault"), &in.cfg)
+	if pr, ok := s.Field("prior"); ok {
+		g := func(t string) Sx {
+			f, ok := pr.Field(t)
+			if !ok {
+				panic("replay: prior without " + t)
+			}
+			return f
+		}
+		pc := &runCfg{dist: g("dist").Args()[0].Int(), thr: g("thr").Args()[0].Int(), disk: g("disk").Args()[0].Int() != 0,
+			cleanDir: g("clean").Args()[0].Int() != 0}
+		parseFault(g("fault"), pc)
+		if hs, ok := pr.Field("hist"); ok {
+			if vh, ok := viewFromSx(hs); ok {
+				pc.hist = mkView(vh)
+			} else {
+				pc.hist = synth.HistFromSx(hs)
+			}
+		}
+		in.cfg.prior = pc
+	}
+	return in
+}
+
+func parseFault(fs Sx, cfg *runCfg) {
+	f := fs.Args()
+	cfg.fault = f[0].Atom
+	if cfg.fault == "tamper" {
+		cfg.tamper = &tamperSpec{mode: f[1].Atom, skip: f[2].Int()}
 		for _, x := range f[3:] {
 			switch x.Tag() {
 			case "victim":
-				in.cfg.tamper.victim = x.Args()[0].Int()
+				cfg.tamper.victim = x.Args()[0].Int()
 			case "minfiles":
-				in.cfg.tamper.minFiles = x.Args()[0].Int()
+				cfg.tamper.minFiles = x.Args()[0].Int()
 			case "at":
-				in.cfg.tamper.at = x.Args()[0].Atom
+				cfg.tamper.at = x.Args()[0].Atom
+			case "len":
+				cfg.tamper.toLen = x.Args()[0].Int()
+			case "digest":
+				cfg.tamper.digest = x.Args()[0].Atom
 			}
 		}
 	}
-	return in
 }
 
 // sizesSeen runs once with threshold 0 in memory and returns the arena sizes met at Hibernate calls.
@@ -895,7 +1072,15 @@ func main() {
 		return
 	}
 
+	// C09_ONLY=kind,kind: development aid, run only the named families
+	want := func(fam string) bool {
+		only := os.Getenv("C09_ONLY")
+		return only == "" || strings.Contains(","+only+",", ","+fam+",")
+	}
 	nh := c.Count(20, 300)
+	if !want("sweep") {
+		nh = 0
+	}
 	for i := 0; i < nh; i++ {
 		maxCommits := 6 + c.Rng.Intn(9)
 		h, G, S := genHist(c, maxCommits)
@@ -940,6 +1125,9 @@ func main() {
 	// history, arms of different lengths, a chain after the merge, 1-2 roots, single head; distances 1..4 (always
 	// including parents-3 and parents-4), thresholds {0, 1, an arena size met}, memory and disk, some tampering.
 	no := c.Count(9, 200)
+	if !want("octo") {
+		no = 0
+	}
 	for i := 0; i < no; i++ {
 		k := 4 + c.Rng.Intn(4)
 		oo := synth.OctoOpts{Roots: 1 + c.Rng.Intn(2), Merges: 1 + c.Rng.Intn(2), MinPar: k, MaxPar: k,
@@ -973,9 +1161,27 @@ func main() {
 				tamper: &tamperSpec{mode: mode, skip: c.Rng.Intn(3)}, wrap: c.Rng.Intn(3) != 0}})
 		}
 	}
-	victimCases(c)
-	longCases(c)
-	scaleCases(c)
+	if want("victim") {
+		victimCases(c)
+	}
+	if want("long") {
+		longCases(c)
+	}
+	if want("wipe") {
+		wipeCases(c)
+	}
+	if want("truncall") {
+		truncAllCases(c)
+	}
+	if want("rerun") {
+		rerunCases(c)
+	}
+	if os.Getenv("C09_ONLY") == "stability" {
+		stabilityExperiment(c)
+	}
+	if want("scale") {
+		scaleCases(c)
+	}
 }
 
 // longCases: histories of 30..135 commits (GenHist rules on a longer commit graph), so that the plan has about 100, more
@@ -1094,7 +1300,7 @@ func victimCases(c *Config) {
 			for k := 0; k < 2; k++ {
 				emitCase(c, caseIn{"victim", h, G, S, runCfg{dist: 1 + c.Rng.Intn(3), thr: c.Rng.Intn(2), disk: true, fault: "tamper",
 					tamper: &tamperSpec{mode: mode, skip: c.Rng.Intn(3), victim: 1 + c.Rng.Intn(3), minFiles: 1 + k, at: "consume"},
-					wrap: c.Rng.Intn(3) != 0}})
+					wrap:   c.Rng.Intn(3) != 0}})
 			}
 		}
 	}
